@@ -176,6 +176,9 @@ func zzBuildCLI() (string, error) {
 	bin := filepath.Join(dir, "task")
 	cmd := exec.Command("go", "build", "-o", bin, "./cmd/task")
 	cmd.Dir = "/repo"
+	if d := os.Getenv("GOSMT_REPO"); d != "" {
+		cmd.Dir = d
+	}
 	cmd.Env = append(os.Environ(), "GOFLAGS=-mod=mod", "GOPROXY=off", "GOSUMDB=off", "GOTOOLCHAIN=local")
 	if out, err := cmd.CombinedOutput(); err != nil {
 		return "", fmt.Errorf("%v: %s", err, out)
@@ -443,5 +446,111 @@ func ZZ_C19_CLI_native() {
 	if assign {
 		zz.Assert(templated || (runErr == nil && strings.HasSuffix(got, "]<"+val+"><Z>")), "assignment-value-reaches-the-command-split-at-first-equals")
 		zz.Assert(templated || (runErr == nil && stderr.String() == "("+val+")("+val+")(Z)"), "shellQuote-and-q-pass-the-value-as-one-quoted-word")
+	}
+}
+
+// ZZ_CLI_ExitStatus_native replays a model of cmd/task's ZZ_CLI_ExitStatus against the
+// built binary: the same scenario as a Taskfile on disk, the exit status of the process.
+func ZZ_CLI_ExitStatus_native() {
+	kind := zz.Choose("kind", 8)
+	exitCode := zz.Bool("exit_code_flag")
+	where, status, ignoreCmd, ignoreTask, viaDep := 0, uint8(0), false, false, false
+	if kind == 0 {
+		where = zz.Choose("failing_command_in", 4)
+		status = zz.Uint8("status")
+		zz.Assume(status != 0)
+		ignoreCmd = zz.Bool("ignore_error_on_command")
+		ignoreTask = zz.Bool("ignore_error_on_task")
+	} else if kind != 1 && kind != 2 && kind != 7 {
+		viaDep = zz.Bool("guarded_task_is_a_dependency")
+	}
+	want := map[int]int{1: 200, 2: 202, 7: 203, 3: 206, 4: 207, 6: 205, 5: 1}[kind]
+	if kind == 0 {
+		want = 201
+		if exitCode {
+			want = int(status)
+		}
+		if ignoreCmd || ignoreTask {
+			want = 0
+		}
+	}
+	failCmd := fmt.Sprintf("      - cmd: exit %d\n        ignore_error: %v\n", status, ignoreCmd)
+	okCmd := func(id string) string { return "      - echo RAN:" + id + "\n" }
+	ign := fmt.Sprintf("    ignore_error: %v\n", ignoreTask)
+	y := "version: '3'\nsilent: true\n"
+	show := "  show:\n"
+	guard := ""
+	name := "show"
+	extra := ""
+	switch kind {
+	case 0:
+		switch where {
+		case 0:
+			show += ign + "    cmds:\n" + failCmd + okCmd("b")
+		case 1:
+			show += ign + "    cmds:\n" + okCmd("a") + failCmd
+		case 2:
+			show += "    deps: [dep]\n    cmds:\n" + okCmd("a") + okCmd("b")
+			extra = "  dep:\n" + ign + "    cmds:\n" + failCmd
+		case 3:
+			show += "    cmds:\n" + okCmd("a") + "      - task: sub\n" + okCmd("b")
+			extra = "  sub:\n" + ign + "    cmds:\n" + failCmd
+		}
+	case 1:
+		name = "shwo"
+	case 2:
+		guard = "    internal: true\n"
+	case 7:
+		name = "s"
+		guard = "    aliases: [s]\n"
+		extra = "  other:\n    aliases: [s]\n    cmds:\n" + okCmd("o")
+	case 3:
+		guard = "    requires:\n      vars: [NEEDED]\n"
+	case 4:
+		guard = "    requires:\n      vars:\n        - name: MODE\n          enum: [dev, prod]\n"
+		y += "vars:\n  MODE: test\n"
+	case 5:
+		guard = "    preconditions:\n      - sh: exit 1\n        msg: no\n"
+	case 6:
+		guard = "    prompt: sure?\n"
+	}
+	if kind != 0 {
+		if viaDep {
+			show += "    deps: [guarded]\n    cmds:\n" + okCmd("a") + okCmd("b")
+			extra += "  guarded:\n" + guard + "    cmds:\n" + okCmd("g")
+		} else {
+			show += guard + "    cmds:\n" + okCmd("a") + okCmd("b")
+		}
+	}
+	y += "tasks:\n" + show + extra
+	bin, err := zzBuildCLI()
+	if err != nil {
+		fmt.Println("ZZ-NOTE build failed:", err)
+		return
+	}
+	defer os.RemoveAll(filepath.Dir(bin))
+	wd, _ := os.MkdirTemp("", "zzwd")
+	defer os.RemoveAll(wd)
+	os.WriteFile(filepath.Join(wd, "Taskfile.yml"), []byte(y), 0o644)
+	argv := []string{}
+	if exitCode {
+		argv = append(argv, "--exit-code")
+	}
+	argv = append(argv, name)
+	cmd := exec.Command(bin, argv...)
+	cmd.Dir = wd
+	cmd.Stdin = strings.NewReader("")
+	out, runErr := cmd.CombinedOutput()
+	code := 0
+	if ee, ok := runErr.(*exec.ExitError); ok {
+		code = ee.ExitCode()
+	} else if runErr != nil {
+		code = -1
+	}
+	kinds := []string{"failing-command", "unknown-task", "internal-task", "missing-required-var", "enum-mismatch", "failing-precondition", "prompt-without-terminal", "ambiguous-alias"}
+	fmt.Printf("ZZ-NOTE argv=%q exit=%d want=%d out=%q\n", argv, code, want, out)
+	zz.Assert(code == want, "exit-status/"+kinds[kind])
+	if kind != 0 {
+		zz.Assert(!strings.Contains(string(out), "RAN:"), "no-command-runs/"+kinds[kind])
 	}
 }
